@@ -622,6 +622,26 @@ func init() {
 		Variant{Name: "benign: intra-proxy ack relay dispatches with a type switch", Property: "C04", File: ipr, Benign: true,
 			Old: "\t\tif attr, ok := req.GetAttributes().(*adminservice.StreamWorkflowReplicationMessagesRequest_SyncReplicationState); ok && attr.SyncReplicationState != nil {\n\t\t\tack := attr.SyncReplicationState.InclusiveLowWatermark\n", New: "\t\tswitch attr := req.GetAttributes().(type) {\n\t\tcase *adminservice.StreamWorkflowReplicationMessagesRequest_SyncReplicationState:\n\t\t\tif attr.SyncReplicationState == nil {\n\t\t\t\tcontinue\n\t\t\t}\n\t\t\tack := attr.SyncReplicationState.InclusiveLowWatermark\n"},
 	)
+	// ---- observer index guard, boundary form (O20.9 / O7.5 / O6.11)
+	addVariants(
+		Variant{Name: "benign: growth test written as idx+1 > len", Property: "C20", File: "proxy/replication_stream_observer.go", Benign: true,
+			Old: "\tif int(idx) >= len(s.streamActive) {\n", New: "\tif int(idx)+1 > len(s.streamActive) {\n"},
+		Variant{Name: "benign: same edit seen by C06", Property: "C06", File: "proxy/replication_stream_observer.go", Benign: true,
+			Old: "\tif int(idx) >= len(s.streamActive) {\n", New: "\tif int(idx)+1 > len(s.streamActive) {\n"},
+		Variant{Name: "benign: growth test with the operands swapped", Property: "C07", File: "proxy/replication_stream_observer.go", Benign: true,
+			Old: "\tif int(idx) >= len(s.streamActive) {\n", New: "\tif n := len(s.streamActive); n <= int(idx) {\n"},
+		Variant{Name: "growth test lets idx == len-1+2 through (idx >= len+1)", Property: "C20", File: "proxy/replication_stream_observer.go",
+			Old: "\tif int(idx) >= len(s.streamActive) {\n", New: "\tif int(idx) >= len(s.streamActive)+1 {\n", Expect: "O20.9"},
+	)
+	// ---- deep freshness of handed-over messages (O2.5 / O4.12 / O1.11)
+	addVariants(
+		Variant{Name: "benign: local watermark fan-out builds a complete fresh literal instead of proto.Clone", Property: "C04", File: pst, Benign: true,
+			Old: "\t\t\t\t\t// Clone the message for each recipient to prevent shared mutation\n\t\t\t\t\tclonedResp := proto.Clone(msg.Resp).(*adminservice.StreamWorkflowReplicationMessagesResponse)\n", New: "\t\t\t\t\t// A fresh message for each recipient to prevent shared mutation\n\t\t\t\t\tclonedResp := &adminservice.StreamWorkflowReplicationMessagesResponse{\n\t\t\t\t\t\tAttributes: &adminservice.StreamWorkflowReplicationMessagesResponse_Messages{\n\t\t\t\t\t\t\tMessages: &replicationv1.WorkflowReplicationMessages{\n\t\t\t\t\t\t\t\tExclusiveHighWatermark: attr.Messages.ExclusiveHighWatermark,\n\t\t\t\t\t\t\t\tPriority:               attr.Messages.Priority,\n\t\t\t\t\t\t\t},\n\t\t\t\t\t\t},\n\t\t\t\t\t}\n"},
+		Variant{Name: "benign: same edit seen by C02", Property: "C02", File: pst, Benign: true,
+			Old: "\t\t\t\t\t// Clone the message for each recipient to prevent shared mutation\n\t\t\t\t\tclonedResp := proto.Clone(msg.Resp).(*adminservice.StreamWorkflowReplicationMessagesResponse)\n", New: "\t\t\t\t\t// A fresh message for each recipient to prevent shared mutation\n\t\t\t\t\tclonedResp := &adminservice.StreamWorkflowReplicationMessagesResponse{\n\t\t\t\t\t\tAttributes: &adminservice.StreamWorkflowReplicationMessagesResponse_Messages{\n\t\t\t\t\t\t\tMessages: &replicationv1.WorkflowReplicationMessages{\n\t\t\t\t\t\t\t\tExclusiveHighWatermark: attr.Messages.ExclusiveHighWatermark,\n\t\t\t\t\t\t\t\tPriority:               attr.Messages.Priority,\n\t\t\t\t\t\t\t},\n\t\t\t\t\t\t},\n\t\t\t\t\t}\n"},
+		Variant{Name: "benign: same edit seen by C01", Property: "C01", File: pst, Benign: true,
+			Old: "\t\t\t\t\t// Clone the message for each recipient to prevent shared mutation\n\t\t\t\t\tclonedResp := proto.Clone(msg.Resp).(*adminservice.StreamWorkflowReplicationMessagesResponse)\n", New: "\t\t\t\t\t// A fresh message for each recipient to prevent shared mutation\n\t\t\t\t\tclonedResp := &adminservice.StreamWorkflowReplicationMessagesResponse{\n\t\t\t\t\t\tAttributes: &adminservice.StreamWorkflowReplicationMessagesResponse_Messages{\n\t\t\t\t\t\t\tMessages: &replicationv1.WorkflowReplicationMessages{\n\t\t\t\t\t\t\t\tExclusiveHighWatermark: attr.Messages.ExclusiveHighWatermark,\n\t\t\t\t\t\t\t\tPriority:               attr.Messages.Priority,\n\t\t\t\t\t\t\t},\n\t\t\t\t\t\t},\n\t\t\t\t\t}\n"},
+	)
 	// ---- swallowed errors and retained state (general rules)
 	addVariants(
 		Variant{Name: "blob repair error logged and dropped", Property: "C17", File: refl,
